@@ -455,6 +455,8 @@ class Gen:
 
 
 RACE_OPS = ('create_batch', 'create_update', 'create_groups', 'create_jobs', 'commit')
+MESSAGE_RACE_OPS = ('schedule_job', 'unschedule_job', 'mark_creating', 'mark_started', 'mark_complete', 'deactivate_instance')
+P_MESSAGE_FACTOR = 0.5  # messages are several times as frequent as client requests
 P_RACE = 0.02          # per client request of a generated history
 MAX_RACES = 2          # per history (the tie evaluates 2 serial readings per race between different requests)
 
@@ -462,16 +464,37 @@ MAX_RACES = 2          # per history (the tie evaluates 2 serial readings per ra
 def add_races(ops, rng, p_race=P_RACE, max_races=MAX_RACES):
     """Race mode (op "race", INTERFACE.md): with a small probability a client request X of a generated history is delivered twice,
     OVERLAPPING -- {"op":"race","first":X,"second":X,"pause":k} with k anywhere in (and a little beyond) the read-only prefix of the
-    handlers -- and a commit overlaps a re-delivery of the last job bunch of its update.  A verbatim retry leaves the state of a
+    handlers -- and a commit overlaps a re-delivery of the last job bunch of its update; a driver / worker message (MESSAGE_RACE_OPS)
+    overlaps its verbatim re-delivery or the next message about the same job.  A verbatim retry leaves the state of a
     single delivery (C09), so the rest of the history stays what the generator believed.  Uses its OWN random stream: the histories
     are exactly those generated without race mode, except for the replaced requests."""
     out = []
     n = 0
     last_bunch = {}
-    for op in ops:
+    skip = False
+    for idx, op in enumerate(ops):
+        if skip:
+            skip = False
+            continue
         name = op.get('op')
         if name == 'create_jobs':
             last_bunch[(op.get('batch'), op.get('update'))] = op
+        # driver / worker messages (stored-procedure CALLs): a message overlaps its verbatim re-delivery, or the next message about
+        # the same job (the first one suspended inside its procedure)
+        if name in MESSAGE_RACE_OPS and n < max_races and rng.random() < p_race * P_MESSAGE_FACTOR:
+            k = rng.choice([0, 1, 2, 2, 3, 3, 4, 5])
+            nxt = ops[idx + 1] if idx + 1 < len(ops) else None
+            if (nxt is not None and nxt.get('op') in MESSAGE_RACE_OPS and 'job' in op and nxt.get('job') == op.get('job')
+                    and nxt.get('batch') == op.get('batch') and rng.random() < 0.7):
+                pair = [copy.deepcopy(op), copy.deepcopy(nxt)]
+                if rng.random() < 0.5:
+                    pair.reverse()
+                out.append({'op': 'race', 'first': pair[0], 'second': pair[1], 'pause': k})
+                skip = True
+            else:
+                out.append({'op': 'race', 'first': copy.deepcopy(op), 'second': copy.deepcopy(op), 'pause': k})
+            n += 1
+            continue
         if name in RACE_OPS and 'time' not in op and n < max_races and rng.random() < p_race:
             k = rng.choice([0, 1, 1, 2, 2, 3, 4])
             other = copy.deepcopy(op)
